@@ -60,3 +60,145 @@ Print Assumptions C01_api_or.
 Print Assumptions C01_api_xor.
 Print Assumptions C01_api_not.
 Print Assumptions C01_size_guard.
+
+
+(* ---- the operator surface, on the data REGENERATED FROM THE RUST SOURCE on every run (Gen/Surface.v: trait impls;
+        Gen/Guards.v: the ordered syntactic events of every body).  Definitions, pinned tables' proofs and negative
+        examples are in Proofs/Surface10.v.
+        required_forms T = for OP in BitAnd, BitOr, BitXor:  OP<T> for T, OP<&T> for T, OP<T> for &T, OP<&T> for &T,
+                           OPAssign<T> for T, OPAssign<&T> for T;  Not for T, Not for &T      (20 forms per type)
+        must_reach fs fuel [] f k = some event of the body of f leads to `Call k`: directly, or through a compound
+                           assignment `&= |= ^=` ALL of whose candidate impls (OPAssign<T> / OPAssign<&T> of the same
+                           type, the ones already on the call stack excepted, at least one) must-reach k, or through the
+                           inherent method of the same type that it calls
+        may_reach          the over-approximation (any event, any candidate; out of fuel counts as reached)
+        reached fs f     = the kernels among and_inplace, or_inplace, xor_inplace, not_inplace that f may-reach *)
+From Coq Require Import String.
+From V Require Import Gen.Guards Gen.Surface Proofs.Guards17 Proofs.Surface10.
+Open Scope nat_scope.
+Open Scope string_scope.
+
+(* every syntactic form of & | ^ ! (and of &= |= ^=) exists for Lut and for StaticLut, with exactly its one method *)
+Theorem C01_forms_complete :
+  forallb (fun T => forallb (form_present trait_impls T) (required_forms T)) ["Lut"; "StaticLut"] = true.
+Proof. exact s10_forms_complete. Qed.
+
+(* and there is no other logical-operator impl for these types: no stray generic argument, no duplicate *)
+Theorem C01_forms_exact :
+  forallb (fun T =>
+    forallb (fun fm => existsb (form_eqb fm) (required_forms T)) (logic_impls_of trait_impls T) &&
+    Nat.eqb (List.length (logic_impls_of trait_impls T)) (List.length (required_forms T))) ["Lut"; "StaticLut"] = true.
+Proof. exact s10_forms_exact. Qed.
+
+Theorem C01_forms_count :
+  map (fun T => (T, List.length (required_forms T), List.length (logic_impls_of trait_impls T))) ["Lut"; "StaticLut"] =
+  [("Lut", 20, 20); ("StaticLut", 20, 20)].
+Proof. exact s10_forms_count. Qed.
+
+Theorem C01_forms_table :
+  logic_impls_of trait_impls "Lut" =
+  [ ("Not", "&Lut", "not"); ("Not", "Lut", "not");
+    ("BitAndAssign<&Lut>", "Lut", "bitand_assign"); ("BitAndAssign<Lut>", "Lut", "bitand_assign");
+    ("BitAnd<Lut>", "Lut", "bitand"); ("BitAnd<Lut>", "&Lut", "bitand");
+    ("BitAnd<&Lut>", "&Lut", "bitand"); ("BitAnd<&Lut>", "Lut", "bitand");
+    ("BitOrAssign<&Lut>", "Lut", "bitor_assign"); ("BitOrAssign<Lut>", "Lut", "bitor_assign");
+    ("BitOr<Lut>", "Lut", "bitor"); ("BitOr<Lut>", "&Lut", "bitor");
+    ("BitOr<&Lut>", "&Lut", "bitor"); ("BitOr<&Lut>", "Lut", "bitor");
+    ("BitXorAssign<&Lut>", "Lut", "bitxor_assign"); ("BitXorAssign<Lut>", "Lut", "bitxor_assign");
+    ("BitXor<Lut>", "Lut", "bitxor"); ("BitXor<Lut>", "&Lut", "bitxor");
+    ("BitXor<&Lut>", "&Lut", "bitxor"); ("BitXor<&Lut>", "Lut", "bitxor") ] /\
+  logic_impls_of trait_impls "StaticLut" =
+  [ ("Not", "StaticLut", "not"); ("Not", "&StaticLut", "not");
+    ("BitAndAssign<StaticLut>", "StaticLut", "bitand_assign"); ("BitAndAssign<&StaticLut>", "StaticLut", "bitand_assign");
+    ("BitAnd<StaticLut>", "StaticLut", "bitand"); ("BitAnd<&StaticLut>", "StaticLut", "bitand");
+    ("BitAnd<StaticLut>", "&StaticLut", "bitand"); ("BitAnd<&StaticLut>", "&StaticLut", "bitand");
+    ("BitOrAssign<StaticLut>", "StaticLut", "bitor_assign"); ("BitOrAssign<&StaticLut>", "StaticLut", "bitor_assign");
+    ("BitOr<StaticLut>", "StaticLut", "bitor"); ("BitOr<&StaticLut>", "StaticLut", "bitor");
+    ("BitOr<StaticLut>", "&StaticLut", "bitor"); ("BitOr<&StaticLut>", "&StaticLut", "bitor");
+    ("BitXorAssign<StaticLut>", "StaticLut", "bitxor_assign"); ("BitXorAssign<&StaticLut>", "StaticLut", "bitxor_assign");
+    ("BitXor<StaticLut>", "StaticLut", "bitxor"); ("BitXor<&StaticLut>", "StaticLut", "bitxor");
+    ("BitXor<StaticLut>", "&StaticLut", "bitxor"); ("BitXor<&StaticLut>", "&StaticLut", "bitxor") ].
+Proof. exact s10_forms_table. Qed.
+
+(* the two generated files agree: each required form has exactly one body in Gen.Guards.functions; 40 bodies *)
+Theorem C01_forms_have_bodies :
+  forallb (fun T => forallb (fun fm => Nat.eqb (List.length (form_body functions fm)) 1) (required_forms T))
+          ["Lut"; "StaticLut"] = true /\
+  List.length (filter is_logic_impl functions) = 40.
+Proof. exact s10_forms_have_bodies. Qed.
+
+(* every one of the 40 bodies forwards to the kernel of ITS operator and can reach no other logical kernel *)
+Theorem C01_operators_forward : operators_forward functions = true.
+Proof. exact s10_operators_forward. Qed.
+
+Theorem C01_operator_forwards_spec : forall f, In f functions -> is_logic_impl f = true ->
+  exists k, kernel_of_trait (fi_trait f) = Some k /\
+            must_reach functions reach_fuel [] f k = true /\
+            (forall k', In k' logic_kernels -> may_reach functions reach_fuel [] f k' = true -> k' = k).
+Proof. exact s10_operator_forwards_spec. Qed.
+
+Theorem C01_operator_table :
+  map (fun f => (fi_trait f, fi_impl f, reached functions f)) (filter is_logic_impl functions) =
+  [ ("Not", "&Lut", ["not_inplace"]); ("Not", "Lut", ["not_inplace"]);
+    ("BitAndAssign<&Lut>", "Lut", ["and_inplace"]); ("BitAndAssign<Lut>", "Lut", ["and_inplace"]);
+    ("BitAnd<Lut>", "Lut", ["and_inplace"]); ("BitAnd<Lut>", "&Lut", ["and_inplace"]);
+    ("BitAnd<&Lut>", "&Lut", ["and_inplace"]); ("BitAnd<&Lut>", "Lut", ["and_inplace"]);
+    ("BitOrAssign<&Lut>", "Lut", ["or_inplace"]); ("BitOrAssign<Lut>", "Lut", ["or_inplace"]);
+    ("BitOr<Lut>", "Lut", ["or_inplace"]); ("BitOr<Lut>", "&Lut", ["or_inplace"]);
+    ("BitOr<&Lut>", "&Lut", ["or_inplace"]); ("BitOr<&Lut>", "Lut", ["or_inplace"]);
+    ("BitXorAssign<&Lut>", "Lut", ["xor_inplace"]); ("BitXorAssign<Lut>", "Lut", ["xor_inplace"]);
+    ("BitXor<Lut>", "Lut", ["xor_inplace"]); ("BitXor<Lut>", "&Lut", ["xor_inplace"]);
+    ("BitXor<&Lut>", "&Lut", ["xor_inplace"]); ("BitXor<&Lut>", "Lut", ["xor_inplace"]);
+    ("Not", "StaticLut", ["not_inplace"]); ("Not", "&StaticLut", ["not_inplace"]);
+    ("BitAndAssign<StaticLut>", "StaticLut", ["and_inplace"]); ("BitAndAssign<&StaticLut>", "StaticLut", ["and_inplace"]);
+    ("BitAnd<StaticLut>", "StaticLut", ["and_inplace"]); ("BitAnd<&StaticLut>", "StaticLut", ["and_inplace"]);
+    ("BitAnd<StaticLut>", "&StaticLut", ["and_inplace"]); ("BitAnd<&StaticLut>", "&StaticLut", ["and_inplace"]);
+    ("BitOrAssign<StaticLut>", "StaticLut", ["or_inplace"]); ("BitOrAssign<&StaticLut>", "StaticLut", ["or_inplace"]);
+    ("BitOr<StaticLut>", "StaticLut", ["or_inplace"]); ("BitOr<&StaticLut>", "StaticLut", ["or_inplace"]);
+    ("BitOr<StaticLut>", "&StaticLut", ["or_inplace"]); ("BitOr<&StaticLut>", "&StaticLut", ["or_inplace"]);
+    ("BitXorAssign<StaticLut>", "StaticLut", ["xor_inplace"]); ("BitXorAssign<&StaticLut>", "StaticLut", ["xor_inplace"]);
+    ("BitXor<StaticLut>", "StaticLut", ["xor_inplace"]); ("BitXor<&StaticLut>", "StaticLut", ["xor_inplace"]);
+    ("BitXor<StaticLut>", "&StaticLut", ["xor_inplace"]); ("BitXor<&StaticLut>", "&StaticLut", ["xor_inplace"]) ].
+Proof. exact s10_operator_table. Qed.
+
+(* the named methods and / or / xor / not and their _inplace forms, of both types, are public and do the same *)
+Theorem C01_named_methods_forward : named_methods_forward functions = true.
+Proof. exact s10_named_methods_forward. Qed.
+
+Theorem C01_named_table :
+  flat_map (fun T => map (fun mk =>
+     (T, fst mk, match find_method functions T (fst mk) with Some f => reached functions f | None => ["<missing>"] end))
+     named_logic_methods) ["Lut"; "StaticLut"] =
+  [ ("Lut", "and", ["and_inplace"]); ("Lut", "or", ["or_inplace"]); ("Lut", "xor", ["xor_inplace"]);
+    ("Lut", "not", ["not_inplace"]); ("Lut", "and_inplace", ["and_inplace"]); ("Lut", "or_inplace", ["or_inplace"]);
+    ("Lut", "xor_inplace", ["xor_inplace"]); ("Lut", "not_inplace", ["not_inplace"]);
+    ("StaticLut", "and", ["and_inplace"]); ("StaticLut", "or", ["or_inplace"]); ("StaticLut", "xor", ["xor_inplace"]);
+    ("StaticLut", "not", ["not_inplace"]); ("StaticLut", "and_inplace", ["and_inplace"]);
+    ("StaticLut", "or_inplace", ["or_inplace"]); ("StaticLut", "xor_inplace", ["xor_inplace"]);
+    ("StaticLut", "not_inplace", ["not_inplace"]) ].
+Proof. exact s10_named_table. Qed.
+
+(* the four kernels are free functions of operations.rs and each applies the operator it is named after
+   (and_inplace: only `&=`, or_inplace: only `|=`, xor_inplace: only `^=`, not_inplace: none of them);
+   C01_and / C01_or / C01_xor / C01_not above are about these four functions *)
+Theorem C01_kernels_use_their_symbol : kernels_use_their_symbol functions = true.
+Proof. exact s10_kernels_use_their_symbol. Qed.
+
+(* the predicates discriminate: `&a | &b` written with `&=`, and `Lut::not` without its kernel, are rejected *)
+Example C01_surface_predicates_discriminate :
+  (let fs := edit "&Lut" "BitOr<&Lut>" "bitor" (with_events [Method "clone"; OpAssign "&="]) functions in
+   operators_forward fs = false /\ operators_failing fs = [("BitOr<&Lut>", "&Lut")]) /\
+  forms_complete (drop_impl "BitXor<&StaticLut>" "StaticLut" trait_impls) = false.
+Proof. exact (conj neg_or_uses_and (proj1 neg_form_missing)). Qed.
+
+Print Assumptions C01_forms_complete.
+Print Assumptions C01_forms_exact.
+Print Assumptions C01_forms_count.
+Print Assumptions C01_forms_table.
+Print Assumptions C01_forms_have_bodies.
+Print Assumptions C01_operators_forward.
+Print Assumptions C01_operator_forwards_spec.
+Print Assumptions C01_operator_table.
+Print Assumptions C01_named_methods_forward.
+Print Assumptions C01_named_table.
+Print Assumptions C01_kernels_use_their_symbol.
